@@ -32,18 +32,6 @@ def mismatches(case, o):
     return mism
 
 
-def enumerate_cases(prop, module, cfg, workers=1, env=None, timeout=1500):
-    cases, res = vlib.gen_enumerate(prop, os.path.join(vlib.SPEC, "props", module), cfg=os.path.join(vlib.SPEC, "props", cfg),
-                                    workers=workers, env=env, timeout=timeout)
-    if not cases:
-        raise vlib.ToolError("%s produced no cases" % module)
-    ids = [c["id"] for c in cases]
-    if len(set(ids)) != len(ids):
-        raise vlib.ToolError("%s produced duplicate case ids" % module)
-    cases.sort(key=lambda c: c["id"])
-    return cases, res
-
-
 def judge(rep, cases, wd, what, name="cases", extra=None, timeout=20):
     """run the in-model cases, file a finding per disagreement; returns (run_cases, obs, failed ids)"""
     run_cases = []
@@ -54,7 +42,7 @@ def judge(rep, cases, wd, what, name="cases", extra=None, timeout=20):
         if extra:
             c.update(extra)
         run_cases.append(c)
-    obs, wall = vlib.run_harness(run_cases, wd, name=name, timeout=timeout)
+    obs, wall = vlib.run_harness(run_cases, wd, name=name, timeout=timeout, jobs=harness_jobs())
     failed = []
     for c, o in zip(run_cases, obs):
         mism = mismatches(c, o)
@@ -78,11 +66,28 @@ def finding_keys(rep):
     return dict(sorted(cnt.items()))
 
 
-def enumerate_sharded(prop, module, cfg, nshards, env=None, timeout=1500):
-    """the same enumerating spec run as `nshards` parallel TLC processes; the spec restricts its initial states to
-    the shapes whose code is congruent to IOEnv.SHARD modulo IOEnv.NSHARDS.  Returns (cases, states, wall)."""
+def tlc_procs():
+    """how many TLC processes may run side by side (VERIF_TLC_PROCS, default 1: the machine is shared)"""
+    try:
+        return max(1, min(8, int(os.environ.get("VERIF_TLC_PROCS", "1"))))
+    except ValueError:
+        return 1
+
+
+def harness_jobs():
+    try:
+        return max(1, min(12, int(os.environ.get("VERIF_JOBS", "4"))))
+    except ValueError:
+        return 4
+
+
+def enumerate_sharded(prop, module, cfg, nshards=None, env=None, timeout=1500):
+    """an enumerating spec (states = cases) run as VERIF_TLC_PROCS TLC processes (default: one); the spec restricts its
+    initial states to the shapes whose code is congruent to IOEnv.SHARD modulo IOEnv.NSHARDS.
+    Returns (cases, states, wall)."""
     import concurrent.futures
     import time
+    nshards = min(nshards or 1, tlc_procs())
     mod = os.path.join(vlib.SPEC, "props", module)
     cfgp = os.path.join(vlib.SPEC, "props", cfg)
     t0 = time.time()
@@ -92,7 +97,7 @@ def enumerate_sharded(prop, module, cfg, nshards, env=None, timeout=1500):
         if env:
             e.update(env)
         md = os.path.join(vlib.WORK, "_meta", "%s_%d_s%d" % (module[:-4], os.getpid(), i))
-        res = vlib.tlc(mod, cfg=cfgp, env=e, timeout=timeout, workers=1, metadir=md)
+        res = vlib.tlc(mod, cfg=cfgp, env=e, timeout=timeout, workers=1, metadir=md, xmx="3g")
         vlib.tlc_ok(res, "%s shard %d" % (module, i))
         return res.cases(), res.distinct
 
